@@ -7,12 +7,31 @@ import (
 	"context"
 	"fmt"
 	"net"
+	"os"
 	"syscall"
 	"time"
 
 	"github.com/bluenviron/gomavlib/v3/pkg/vmc"
 	"github.com/bluenviron/gomavlib/v3/pkg/vmc/vctx"
 )
+
+// TCPConn / UDPConn: connections handed out by the dial hook and the fake listener are
+// *FakeConn; code that asserts the concrete type of a dialled connection to tune it
+// (SetNoDelay, SetKeepAlive ...) finds these methods, which have no effect on the fake.
+type (
+	TCPConn = FakeConn
+	UDPConn = FakeConn
+)
+
+func (c *FakeConn) SetNoDelay(bool) error                        { return nil }
+func (c *FakeConn) SetKeepAlive(bool) error                      { return nil }
+func (c *FakeConn) SetKeepAlivePeriod(time.Duration) error       { return nil }
+func (c *FakeConn) SetKeepAliveConfig(net.KeepAliveConfig) error { return nil }
+func (c *FakeConn) SetLinger(int) error                          { return nil }
+func (c *FakeConn) SetReadBuffer(int) error                      { return nil }
+func (c *FakeConn) SetWriteBuffer(int) error                     { return nil }
+func (c *FakeConn) CloseRead() error                             { return nil }
+func (c *FakeConn) CloseWrite() error                            { return nil }
 
 // Behaviour-free types.
 type (
@@ -126,9 +145,10 @@ var ErrClosed = net.ErrClosed
 
 type timeoutErr struct{}
 
-func (timeoutErr) Error() string   { return "i/o timeout" }
-func (timeoutErr) Timeout() bool   { return true }
-func (timeoutErr) Temporary() bool { return true }
+func (timeoutErr) Error() string     { return "i/o timeout" }
+func (timeoutErr) Is(err error) bool { return err == os.ErrDeadlineExceeded }
+func (timeoutErr) Timeout() bool     { return true }
+func (timeoutErr) Temporary() bool   { return true }
 
 // ErrTimeout is the deadline error of the fakes.
 var ErrTimeout error = timeoutErr{}
